@@ -267,6 +267,9 @@ class Translator:
         """Lower a clang qualType string."""
         orig = q
         q = norm(q)
+        if re.search(r'\(\*\)\s*\(', q):
+            # a pointer to function: an opaque pointer (it can be tested for null; calls through it need an `fp:<field>` binding)
+            return CT('void', 1, False, False, orig)
         ref = False
         if q.endswith('&&'):
             q = q[:-2].strip()
@@ -1655,6 +1658,17 @@ class Translator:
             return '((void)%s)' % self.expr(s)
         if ck in ('IntegralToBoolean', 'PointerToBoolean'):
             return '(%s != 0)' % self.expr(s)
+        if ck == 'BaseToDerived' and self.u.get('downcast_obligation'):
+            # a static downcast is an obligation: the object must be of the target class (unit option: target class -> C expression over $p)
+            tgt = norm(self.qt(n)).rstrip('*& ').split('::')[-1]
+            cond = self.u['downcast_obligation'].get(tgt)
+            if cond is None:
+                raise Unsupported('static downcast to %s without a type test' % tgt)
+            e = self.expr(s)
+            self.tmp += 1
+            t = self.ntype(n)
+            return '({ void *__dc%d = (void *)(%s); __CPROVER_assert(%s, "[%s] static_cast to %s only of an object of that class"); (%s)__dc%d; })' % (
+                self.tmp, e, cond.replace('$p', '__dc%d' % self.tmp), self.u.get('downcast_tag', 'P:C19'), tgt, t.c().strip(), self.tmp)
         return self.cast_to(n, self.expr(s))
 
     e_CXXStaticCastExpr = e_CStyleCastExpr
@@ -1855,7 +1869,10 @@ class Translator:
             self.externs.setdefault(name, r.get('type', {}).get('qualType', ''))
             return self.wrapref(n, '%s(%s)' % (name, ', '.join(self.lower_args(argnodes, None, ptypes))))
         if callee.get('kind') == 'MemberExpr' and self.qt(callee) != '<bound member function type>':
-            # call through a function-pointer field
+            # call through a function-pointer field: a unit may bind the call itself (`fp:<field>`), the field stays a plain pointer
+            b = self.lookup_binding(['fp:' + callee.get('name', '')])
+            if b is not None:
+                return self.apply_binding(b, n, None, None, argnodes)
             return '%s(%s)' % (self.expr(callee), ', '.join(self.lower_args(argnodes)))
         raise Unsupported('call through %s' % callee.get('kind'))
 
